@@ -23,10 +23,13 @@ RULE = ("a case = one tree instance (shape, labels, dict insertion order incl. o
         "real TTNS/TTNO instances (SandwichCache with real contractions, TDVP constructor). "
         "non-trivial = distinct instance with >= 3 nodes")
 PARTIAL = [
-    "update path = post-order of the tree re-rooted at its last element (update_path_is_reroot_postorder), "
-    "next_hop_is_new_parent and the edge-crossing bound are decided by the oracle only (Euler-tour counter)",
-    "the theorems are about the structural model on RTree; its equality with the line-by-line flat port and "
-    "with the code is checked by correspondence (exhaustively up to 7 nodes), not proved",
+    "'walking the update path crosses no edge more than twice' has no theorem (nor has the stronger "
+    "'update path = post-order of the tree re-rooted at its last element'): decided by the oracle only "
+    "(edge-crossing counter over breadth-first paths, exhaustive up to 7 nodes)",
+    "the theorems are about the structural model on RTree; its equality with the line-by-line flat port "
+    "(dict order, parent pointers, fuel-bounded recursion) and with the code is checked by correspondence "
+    "(exhaustively up to 7 nodes, several dict/child orders each), not proved",
+    "get_leaves and nearest_neighbours (dict-order dependent) exist only in the flat model: correspondence + oracle",
 ]
 ASSUMPTIONS = ["Python dicts iterate in insertion order; max(d, key=d.get) returns the first maximal key",
                "node identifiers are distinct (enforced by TreeStructure.ensure_uniqueness)"]
@@ -187,7 +190,7 @@ def gen_cases(ctx):
     cases = []
     thorough = ctx.tier == "thorough" or ctx.scale > 1
     variants = ["dfs", "bfs", "valid", "fromleaf", "perm"]
-    reps_extra = 6 if thorough else 0
+    reps_extra = 15 if thorough else 3
     for n in range(1, 8):
         for idx in range(len(gen.all_ordered_trees(n))):
             for v in variants:
@@ -195,12 +198,16 @@ def gen_cases(ctx):
             for _ in range(reps_extra):
                 cases.append({"kind": "enum", "n": n, "index": idx, "variant": rng.choice(["perm", "fromleaf", "valid"]),
                               "seed": rng.randrange(10 ** 9)})
+    if thorough:                           # all 429 ordered trees with 8 nodes as well
+        for idx in range(len(gen.all_ordered_trees(8))):
+            for v in ("dfs", "fromleaf", "perm"):
+                cases.append({"kind": "enum", "n": 8, "index": idx, "variant": v, "seed": rng.randrange(10 ** 9)})
     for _ in range(ctx.n(300, 5000)):
         n = rng.choice([rng.randint(8, 14), rng.randint(8, 40), rng.randint(15, 40)])
         cases.append({"kind": "random", "n": n, "seed": rng.randrange(10 ** 9),
                       "shape": rng.choice(["uniform", "uniform", "chain", "star", "binaryish", "caterpillar"]),
                       "variant": rng.choice(variants), "pairs": rng.randrange(10 ** 9)})
-    for _ in range(ctx.n(6, 60)):
+    for _ in range(ctx.n(10, 100)):
         cases.append({"kind": "real", "n": rng.randint(2, 7), "seed": rng.randrange(10 ** 9)})
     return cases
 
